@@ -166,7 +166,13 @@ def geotherm(ctx, rng, tmp, geo_main):
         tv = numpy.linspace(300.0, 2700.0, nt)
         pv = numpy.linspace(0.0, 120.0, npp)
         write_table(d / "c11s_tp_gpa.txt", tv, pv, lambda i, j, t, p: f(t, p))
-        write_table(d / "G_VRH_tp_gpa.txt", tv, pv, lambda i, j, t, p: g2(t, p))
+        # the second variable: G_VRH, or a name that is a prefix of other files of a real output directory (G_V / G_VRH, bm_V / bm_VRH)
+        var2 = "G_VRH" if res_i == 0 else str(rng.choice(["G_V", "bm_V"]))
+        write_table(d / f"{var2}_tp_gpa.txt", tv, pv, lambda i, j, t, p: g2(t, p))
+        for name, suf in [(n, "gpa.txt") for n in ("bm_V", "bm_R", "bm_VRH", "G_V", "G_R", "G_VRH", "c11t", "c12s")] + [("v", "ang3.txt"), ("v_p", "km_s.txt"), ("v_s", "km_s.txt")]:
+            if name != var2:
+                write_table(d / f"{name}_tp_{suf}", tv, pv, lambda i, j, t, p: -1.0 - 0.001 * i)
+                write_table(d / f"{name}_tv_{suf}", tv, pv, lambda i, j, t, p: -2.0)
         # geotherm: grid nodes first, then off-node points; an extra column must pass through
         nodes = [(int(i), int(j)) for i, j in zip(rng.integers(0, nt, 5), rng.integers(0, npp, 5))]
         nodes[0], nodes[1], nodes[2] = (nt - 1, npp - 1), (0, 0), (nt - 1, int(rng.integers(0, npp)))      # corners and the last row
@@ -183,19 +189,19 @@ def geotherm(ctx, rng, tmp, geo_main):
         ctx.count({"geotherm": [nt, npp], "columns": [pname, tname]})
         opts = [] if res_i == 0 else ["--t-col", pname, "--p-col", tname]
         with cwd(d):
-            r = CliRunner().invoke(geo_main, ["-g", "geotherm.txt", *opts, "-v", "c11s,G_VRH"])
+            r = CliRunner().invoke(geo_main, ["-g", "geotherm.txt", *opts, "-v", f"c11s,{var2}"])
         if r.exit_code != 0:
             ctx.violation(f"cij extract-geotherm failed: {r.exception!r}", {"grid": [nt, npp]}, {"clause": "geotherm_raises"})
             return
         rows = parse_out(r.output)
-        if rows[0] != [pname, tname, "D", "c11s", "G_VRH"] or len(rows) != len(P) + 1:
+        if rows[0] != [pname, tname, "D", "c11s", var2] or len(rows) != len(P) + 1:
             ctx.violation(f"extract-geotherm output columns {rows[0]} / {len(rows)-1} rows", {"output": r.output}, {"clause": "geotherm_shape"})
             return
         vals = numpy.array([[float(x) for x in row] for row in rows[1:]])
         if not (numpy.allclose(vals[:, 0], P, rtol=1e-6) and numpy.allclose(vals[:, 1], T, rtol=1e-6) and numpy.allclose(vals[:, 2], depth, rtol=1e-6)):
             ctx.violation("extract-geotherm does not pass the geotherm's own columns through unchanged", {"output": r.output}, {"clause": "geotherm_passthrough"})
         for k, (i, j) in enumerate(nodes):
-            for col, fn, name in ((3, f, "c11s"), (4, g2, "G_VRH")):
+            for col, fn, name in ((3, f, "c11s"), (4, g2, var2)):
                 if not abs(vals[k, col] - fn(tv[i], pv[j])) <= 1e-5 * abs(fn(tv[i], pv[j])):       # 6 printed significant digits
                     ctx.violation(f"extract-geotherm at the grid node (T={tv[i]}, P={pv[j]}) returns {vals[k, col]} for {name}, the table entry is {fn(tv[i], pv[j])}",
                                   {"node": [int(i), int(j)]}, {"clause": "geotherm_node", "var": name})
